@@ -2,7 +2,7 @@
 
 use crate::framework::{Ctx, Spec};
 use crate::gen;
-use crate::ops::{self, CacheMode, Fail, Op, Sut};
+use crate::ops::{self, Fail, Op, Sut};
 use crate::props::c03;
 use crate::refimpl::{self, RProof, RefTree};
 use crate::rng::Rng;
@@ -159,9 +159,9 @@ fn history_for_length(l: u64, r: &mut Rng) -> Vec<Op> {
 
 fn writer_case(ctx: &mut Ctx, ops: &[Op], key_seed: u64, every_op: bool) -> Result<u64, (usize, Fail)> {
     let world = World::new();
-    // the node cache must not change any value: a third of the histories each run with it off,
-    // default and tiny
-    let cache = [CacheMode::None, CacheMode::Default, CacheMode::Tiny][(key_seed % 3) as usize];
+    // the node cache must not change any value: a quarter of the histories each run with it off,
+    // default, tiny and volatile (forgets at once)
+    let cache = ops::CACHE_MODES[(key_seed % 4) as usize];
     let mut sut = Sut::create(key_seed, world.clone(), cache).map_err(|f| (0, f))?;
     sut.plain_reopen_every = 2;
     let pk = sut.key.verifying_key().to_bytes();
@@ -267,7 +267,7 @@ fn check_replica_served(ctx: &mut Ctx, sess: &mut c03::Session, r: &mut Rng, ref
 fn session_case(ctx: &mut Ctx, r: &mut Rng) -> Result<(), Fail> {
     // an honest C03 session, with every proof checked by the independent verifier
     let key_seed = r.next_u64();
-    let cache = *r.pick(&[CacheMode::None, CacheMode::Default, CacheMode::Tiny]);
+    let cache = *r.pick(&ops::CACHE_MODES);
     ctx.count(&format!("session_cache:{cache:?}"));
     let mut sess = c03::Session::new(key_seed, cache)?;
     let pk = sess.pair.writer.key.verifying_key().to_bytes();
